@@ -167,7 +167,11 @@ impl TorrentMap {
         // peers have access to each others peer_id's, they could send requests
         // using them, causing all sorts of issues.
         if let Some(previous_peer) = torrent_data.peers.get(&request.peer_id) {
-            if request_sender_meta.connection_id != previous_peer.connection_id {
+            // Connection ids are only unique per socket worker, so compare the
+            // socket worker (consumer) id too
+            if request_sender_meta.connection_id != previous_peer.connection_id
+                || request_sender_meta.out_message_consumer_id.0 != previous_peer.consumer_id.0
+            {
                 return;
             }
         }
